@@ -109,6 +109,25 @@ def record_long(spec):
         ev.append({"n": int(n), "len": int(out.size), "pos": int(pos), "match": int(out.tobytes() == ref[pos:pos + n].tobytes()),
                    "same": int(out.tobytes() == o3.tobytes())})
         pos += n
+    # the colouring cascade against the direct-form reference on a long block
+    qref = 0
+    if kind in ("alpha", "pink"):
+        from scipy import signal
+        from speckit import noise
+        rng = np.random.default_rng(seed)
+        w = rng.standard_normal(70001)
+        a, b = np.asarray(g._a_coeffs), np.asarray(g._b_coeffs)
+        z0 = rng.standard_normal((a.shape[0], 1)) * 0.1
+        out, zf = noise._numba_lfilter_cascade(w.copy(), a, b, z0.copy())
+        y = w.copy()
+        zs = []
+        for i in range(a.shape[0]):
+            y, zfi = signal.lfilter(a[i], b[i], y, zi=z0[i])
+            zs.append(zfi[0])
+        scale = float(np.max(np.abs(y))) + 1e-300
+        qref = traces.q(max(float(np.max(np.abs(out - y))), float(np.max(np.abs(zf[:, 0] - np.array(zs))))) / scale, 2 ** 30)
+    for e in ev:
+        e["qref"] = qref
     return {"meta": dict(spec, sizes=sizes[:12]), "c": {"start": 0}, "ev": ev}
 
 
@@ -153,7 +172,7 @@ def run(tier):
     specs = []
     for k in range(16 if tier == "quick" else 120):
         sizes = [rnd.choice([0, 0, 1, 1, 2, 3, 17, 100, 1000, 4095, 4096, 4097, 10000, rnd.randint(0, 5000)]) for _ in range(rnd.randint(3, 12))]
-        if k % 4 == 0:
+        if (k // 4) % 2 == 0:          # every generator kind gets requests beyond 2^16 samples
             sizes.insert(rnd.randint(0, len(sizes)), rnd.choice([65536, 65537, 70000, 131073]))
         specs.append(dict(kind=["white", "red", "alpha", "pink"][k % 4], seed=rnd.randrange(2 ** 31), settled=bool(k % 3 == 0), sizes=sizes))
     trs = common.pmap(record_long, specs, chunksize=1)
